@@ -333,6 +333,22 @@ def gen_cases(ck):
                 if le is None or rng.random() < 0.5:
                     continue
                 cases.append({"k": "sfunc", "params": [p], "ret": ret, "retv": rv, "args": [a], "lits": [la], "expect": le, "expect_v": ev})
+    # arguments with a HISTORY: the variable held v1, then v2 was assigned; the Go function must receive
+    # v2 (0.0 / -0.0, 1 / 1.0, '1' / 1, true / 1, null / 0 ... : equal under ==, different values)
+    def hlit(v):
+        if v["k"] == "float" and int(v["bits"]) == 1 << 63:
+            return "-0.0"
+        return script_lit(v)
+    hist = [F(0.0), F(-0.0), I(0), I(1), F(1.0), S("1"), S("0"), S(""), B(True), B(False), N, F(0.5), I(-1), F(-1.0)]
+    for p in ("float64", "float32", "int", "string", "bool", "int8", "uint8", "Celsius"):
+        for v1 in hist:
+            for v2 in hist:
+                if v1 == v2 or hlit(v1) is None or hlit(v2) is None:
+                    continue
+                for route, pre, lit in (("lit", "$x = %s; $x = %s;\n" % (hlit(v1), hlit(v2)), "$x"),
+                                        ("var", "$m = %s; $x = %s; $x = $m;\n" % (hlit(v2), hlit(v1)), "$x")):
+                    cases.append({"k": "sfunc", "params": [p], "ret": "int", "retv": {"i": "7"}, "args": [v2], "lits": [lit], "expect": "7",
+                                  "expect_v": I(7), "pre": pre, "hist": route})
     # unsupported parameter / result kinds (struct, map, slice, pointer, interface): a catchable error /
     # some text, never a crash; mixed with supported parameters (the error must come before the call)
     for u in UNSUPPORTED:
@@ -494,5 +510,5 @@ def main(ck):
     ck.cov["outcomes"] = {k: sum(1 for o in outs if o["out"] == k) for k in ("val", "nil", "throw", "panic", "go")}
     ck.samples = [cases[40], cases[len(cases) // 2], cases[-1]]
     ck.finish(level="proof", evaluations=len(cases), distinct_nontrivial=len(nontriv),
-              rule="reflective path: every parameter kind (14 supported + an unsupported slice) x a per-kind pool (min, max, min-1, max+1 of the kind, 0, +-1, int64 limits, +-0.0, subnormal, float32 max / just above / 1e308, inf, NaN, empty, multi-byte, invalid UTF-8 and 64 KiB strings, values of every other script kind, null, array) x 5 result kinds at arity 1; every signature of arity 2 and 3 over the 14 kinds (196 + 2744) with pool-sampled arguments and a random result kind; POSITION matrix: every signature of arity 2 and 3 over {int, float64, string, bool} x result kind among them x every argument position holding one argument of another script sort (int, fractional float, non-numeric and numeric string, bool, null, array) while all other arguments are exactly of their parameter's sort; every result kind x boundary results at arity 0; 21 methods of a registered struct (nine with two or three parameters, with the position matrix); CONCURRENT: 8 workers x 4 000 calls each of one registered function and of one struct method, from goroutines and from spawned script coroutines, arguments tagged per caller and checked in Go, repeated under -race (4 x 300); generic path: ConvertFromIndex[T] for all 14 T x 41 scalar/boundary values (thorough: + 20 000 random ints/floats); non-trivial = distinct call with at least one parameter, or distinct generic conversion",
+              rule="reflective path: every parameter kind (14 supported + an unsupported slice) x a per-kind pool (min, max, min-1, max+1 of the kind, 0, +-1, int64 limits, +-0.0, subnormal, float32 max / just above / 1e308, inf, NaN, empty, multi-byte, invalid UTF-8 and 64 KiB strings, values of every other script kind, null, array) x 5 result kinds at arity 1; every signature of arity 2 and 3 over the 14 kinds (196 + 2744) with pool-sampled arguments and a random result kind; POSITION matrix: every signature of arity 2 and 3 over {int, float64, string, bool} x result kind among them x every argument position holding one argument of another script sort (int, fractional float, non-numeric and numeric string, bool, null, array) while all other arguments are exactly of their parameter's sort; every result kind x boundary results at arity 0; 21 methods of a registered struct (nine with two or three parameters, with the position matrix); arguments with a history ($x = v1; $x = v2; f($x)) for 14 values x 8 parameter kinds; CONCURRENT: 8 workers x 4 000 calls each of one registered function and of one struct method, from goroutines and from spawned script coroutines, arguments tagged per caller and checked in Go, repeated under -race (4 x 300); generic path: ConvertFromIndex[T] for all 14 T x 41 scalar/boundary values (thorough: + 20 000 random ints/floats); non-trivial = distinct call with at least one parameter, or distinct generic conversion",
               traces=len(terms))
